@@ -76,3 +76,26 @@ fn deps_mut_binding<D: Clone>(mut deps: D, mut a: u8, ref b: u8, c @ _: u8) -> u
     a += 1;
     a - *b - c
 }
+
+/// functions NAMED with raw identifiers (the delegating call must keep the `r#`)
+#[entrait(RawMatch)]
+fn r#match<D>(deps: &D, a: i32) -> i32 {
+    a
+}
+#[entrait(RawTypeNoDeps, no_deps)]
+fn r#type(a: i32, b: i32) -> i32 {
+    a - b
+}
+#[entrait(RawAsync)]
+async fn r#loop(deps: &impl core::any::Any, a: i32) -> i32 {
+    a
+}
+#[entrait(pub RawMod)]
+pub mod raw_mod {
+    pub fn r#move<D>(deps: &D, a: i32) -> i32 {
+        a
+    }
+    pub fn r#fn<D>(deps: &D, r#fn: i32) -> i32 {
+        r#fn
+    }
+}
